@@ -455,7 +455,10 @@ func (m *MemFS) open(name string, flag int) (*File, error) {
 	defer m.mu.Unlock()
 	n, exists := m.files[name]
 	if m.dirs[name] {
-		return nil, &fs.PathError{Op: "open", Path: name, Err: syscall.EISDIR}
+		if flag&(O_WRONLY|O_RDWR|O_CREATE) != 0 {
+			return nil, &fs.PathError{Op: "open", Path: name, Err: syscall.EISDIR}
+		}
+		return &File{fs: m, path: name, n: &node{}, rd: true}, nil
 	}
 	if flag&O_CREATE != 0 {
 		if exists && flag&O_EXCL != 0 {
@@ -670,4 +673,210 @@ func MkdirTemp(dir, pattern string) (string, error) {
 		return ros.MkdirTemp(dir, pattern)
 	}
 	return "", errors.New("vos: MkdirTemp unsupported in memory mode")
+}
+
+// ---------------------------------------------------------------------------
+// further pass-throughs so that edits to comet that use more of package os still
+// build; in memory mode they act on the in-memory image where that is meaningful.
+
+var (
+	ErrPermission       = ros.ErrPermission
+	ErrInvalid          = ros.ErrInvalid
+	ErrDeadlineExceeded = ros.ErrDeadlineExceeded
+	Stdin               = ros.Stdin
+)
+
+type (
+	Signal       = ros.Signal
+	ProcAttr     = ros.ProcAttr
+	Process      = ros.Process
+	LinkError    = ros.LinkError
+	SyscallError = ros.SyscallError
+)
+
+func IsPermission(err error) bool             { return ros.IsPermission(err) }
+func IsTimeout(err error) bool                { return ros.IsTimeout(err) }
+func LookupEnv(k string) (string, bool)       { return ros.LookupEnv(k) }
+func Setenv(k, v string) error                { return ros.Setenv(k, v) }
+func Unsetenv(k string) error                 { return ros.Unsetenv(k) }
+func Environ() []string                       { return ros.Environ() }
+func ExpandEnv(s string) string               { return ros.ExpandEnv(s) }
+func Hostname() (string, error)               { return ros.Hostname() }
+func Getwd() (string, error)                  { return ros.Getwd() }
+func Getuid() int                             { return ros.Getuid() }
+func Getppid() int                            { return ros.Getppid() }
+func UserHomeDir() (string, error)            { return ros.UserHomeDir() }
+func UserCacheDir() (string, error)           { return ros.UserCacheDir() }
+func Executable() (string, error)             { return ros.Executable() }
+func Getpagesize() int                        { return ros.Getpagesize() }
+func SameFile(a, b FileInfo) bool             { return ros.SameFile(a, b) }
+func NewSyscallError(s string, e error) error { return ros.NewSyscallError(s, e) }
+
+func Chmod(name string, mode FileMode) error {
+	if FS == nil {
+		return ros.Chmod(name, mode)
+	}
+	if !FS.Exists(name) {
+		return &fs.PathError{Op: "chmod", Path: name, Err: fs.ErrNotExist}
+	}
+	return nil
+}
+
+func Chtimes(name string, a, m time.Time) error {
+	if FS == nil {
+		return ros.Chtimes(name, a, m)
+	}
+	return nil
+}
+
+func Truncate(name string, size int64) error {
+	m := FS
+	if m == nil {
+		return ros.Truncate(name, size)
+	}
+	name = filepath.Clean(name)
+	if err := m.enter("truncate", name); err != nil {
+		return err
+	}
+	m.mu.Lock()
+	defer m.mu.Unlock()
+	n, ok := m.files[name]
+	if !ok {
+		return &fs.PathError{Op: "truncate", Path: name, Err: fs.ErrNotExist}
+	}
+	old := n.data
+	if int(size) <= len(old) {
+		n.data = append([]byte(nil), old[:size]...)
+	} else {
+		n.data = append(append([]byte(nil), old...), make([]byte, int(size)-len(old))...)
+	}
+	// logged as re-creation with the new content (crash images stay exact)
+	m.Log = append(m.Log, Op{Kind: "create", Path: name}, Op{Kind: "write", Path: name, Data: append([]byte(nil), n.data...)})
+	return nil
+}
+
+func CreateTemp(dir, pattern string) (*File, error) {
+	if FS == nil {
+		f, err := ros.CreateTemp(dir, pattern)
+		if err != nil {
+			return nil, err
+		}
+		return &File{real: f}, nil
+	}
+	if dir == "" {
+		dir = "/tmp"
+		FS.mu.Lock()
+		FS.mkdirAllLocked(dir)
+		FS.mu.Unlock()
+	}
+	FS.mu.Lock()
+	FS.counts["createtemp"]++
+	n := FS.counts["createtemp"]
+	FS.mu.Unlock()
+	name := strings.Replace(pattern, "*", "", 1)
+	if i := strings.LastIndex(pattern, "*"); i >= 0 {
+		name = pattern[:i] + "tmp" + strconv.Itoa(n) + pattern[i+1:]
+	} else {
+		name = pattern + "tmp" + strconv.Itoa(n)
+	}
+	return OpenFile(filepath.Join(dir, name), O_RDWR|O_CREATE|O_EXCL, 0600)
+}
+
+func Symlink(o, n string) error {
+	if FS == nil {
+		return ros.Symlink(o, n)
+	}
+	return errors.New("vos: Symlink unsupported in memory mode")
+}
+
+func Link(o, n string) error {
+	if FS == nil {
+		return ros.Link(o, n)
+	}
+	return errors.New("vos: Link unsupported in memory mode")
+}
+
+func Readlink(n string) (string, error) {
+	if FS == nil {
+		return ros.Readlink(n)
+	}
+	return "", errors.New("vos: Readlink unsupported in memory mode")
+}
+
+func DirFS(dir string) fs.FS { return ros.DirFS(dir) }
+
+func (f *File) ReadAt(b []byte, off int64) (int, error) {
+	if f.real != nil {
+		return f.real.ReadAt(b, off)
+	}
+	f.fs.mu.Lock()
+	defer f.fs.mu.Unlock()
+	if int(off) >= len(f.n.data) {
+		return 0, io.EOF
+	}
+	n := copy(b, f.n.data[off:])
+	if n < len(b) {
+		return n, io.EOF
+	}
+	return n, nil
+}
+
+func (f *File) WriteAt(b []byte, off int64) (int, error) {
+	if f.real != nil {
+		return f.real.WriteAt(b, off)
+	}
+	f.pos = int(off)
+	return f.Write(b)
+}
+
+func (f *File) Truncate(size int64) error {
+	if f.real != nil {
+		return f.real.Truncate(size)
+	}
+	return Truncate(f.path, size)
+}
+
+func (f *File) Fd() uintptr {
+	if f.real != nil {
+		return f.real.Fd()
+	}
+	return ^uintptr(0)
+}
+
+func (f *File) Chmod(mode FileMode) error {
+	if f.real != nil {
+		return f.real.Chmod(mode)
+	}
+	return nil
+}
+
+func (f *File) ReadDir(n int) ([]DirEntry, error) {
+	if f.real != nil {
+		return f.real.ReadDir(n)
+	}
+	return ReadDir(f.path)
+}
+
+func (f *File) Readdirnames(n int) ([]string, error) {
+	if f.real != nil {
+		return f.real.Readdirnames(n)
+	}
+	es, err := ReadDir(f.path)
+	var out []string
+	for _, e := range es {
+		out = append(out, e.Name())
+	}
+	return out, err
+}
+
+func (f *File) ReadFrom(r io.Reader) (int64, error) {
+	if f.real != nil {
+		return f.real.ReadFrom(r)
+	}
+	b, err := io.ReadAll(r)
+	if err != nil {
+		return 0, err
+	}
+	n, err := f.Write(b)
+	return int64(n), err
 }
